@@ -216,6 +216,24 @@ seed("C19-r2-1", "C19", "_fix_limit_value treats a falsy scalar bound as unspeci
 seed("C19-r2-2", "C19", "duplicates removed only when subnormals are flushed", "include_subnormal=True, bounds given, more samples than representable values", "C19 quick: real_samples-not-strictly-increasing")
 seed("C19-r2-3", "C19", "equal-bounds shortcut before the bounds are normalised", "equal subnormal bounds, bounds coinciding only after normalisation", "C19 quick: real_samples-* bound sites")
 
+seed("C10-r2-1", "C10", "utils.multiply_dekker with an explicit C splits x twice", "the utilities copy called with C=... and x != y", "C10 quick: utils.multiply_dekker-exact")
+seed("C10-r2-2", "C10", "algorithms.get_veltkamp_splitter_constant: float16 constant 2^5+1", "the traced algorithms.py copy for float16",
+     "C10 quick: algorithms.split_veltkamp-high-width / splitter-constant", first_result="missed (HELD): only the floating_point_algorithms and utils copies were driven",
+     strengthened="task_constants: every copy of the constant helper (eager and traced through the NumPy target) for all three dtypes, and the algorithms.py splitter's high-part width")
+seed("C10-r2-3", "C10", "mul_dekker overflow guard without abs() (the same edit as C11-1, rebased onto the repaired guard)", "fix_overflow=True, negative product near -largest",
+     "C10 quick: fpa.mul_dekker-overflow-guard", first_result="missed (HELD): pairs whose Dekker product may overflow internally were outside the judged domain for every option set",
+     strengthened="with fix_overflow=True the internal-overflow region is judged too: the result is the exact pair or the documented fallback (x*y, 0), never non-finite")
+seed("C14-r2-1", "C14", "diff_ulp returns 0 early when both arguments are subnormal in flush mode", "flush_subnormals=True, two subnormals that round to different points", "C14 quick: flush-consistency")
+seed("C14-r2-2", "C14", "flush remap boundary >= : exactly +-(largest subnormal) collapses onto 0", "flush_subnormals=True and that exact value",
+     "C14 quick: flush-map-monotone / flush-map-endpoint", first_result="missed (HELD): the flush map was probed on 300 random subnormal ordinals; one specific value of 2^23 (float32) is never drawn",
+     strengthened="the ends of the subnormal range and the tie region are always probed; the largest subnormal must go to the smallest normal, the smallest to zero")
+seed("C14-r2-3", "C14", "ulp() exponent clamp off by one", "smallest_normal/2 <= |x| < smallest_normal", "C14 quick: ulp-identity-subnormal")
+seed("C17-r2-1", "C17", "trig: sign of the 2Sum correction in r_lo", "about 12 % of arguments with |x| >= pi/4: r + t off by up to 1.66 ULP", "C17 quick: trig:reconstruction")
+seed("C17-r2-2", "C17", "trig small-argument shortcut threshold 0.7854 (rounded up pi/4)", "pi/4 < |x| < 0.7854", "C17 quick: trig:reconstruction (neighbours of pi/4)")
+seed("C17-r2-3", "C17", "float16 ln2lo constant typo", "float16, k = +-1, 0.3464 <= |x| < 0.5: reconstruction off by 1.23 ULP of x",
+     "C17 quick: exp:reconstruction", first_result="missed (HELD): the reconstruction was judged by lattice steps between the rounded values, which accepts up to 1.5 ULP",
+     strengthened="both reductions are judged by the real-valued error in ULPs of x (resp. of the remainder), as the statement says")
+
 for id_, meta in T.items():
     d = os.path.join(ROOT, id_)
     if not os.path.isdir(d):
